@@ -346,6 +346,23 @@ fn compiled_seed_sources() -> Vec<(String, Kind, Game, String, bool)> {
     // minimal old-format ECL files without any timeline (TH07+: the timeline table then holds only the end-of-file entry)
     for gm in ["th07", "th08", "th095"] { v.push((format!("c-ecl-{gm}-min"), Kind::Ecl, g(gm), "void sub0() {\n    ins_0();\n}\n".to_string(), false)); }
     v.push(("c-ecl-th10".into(), Kind::Ecl, g("th10"), ECL10_SRC.to_string(), false));
+    // one compiled seed for every other (tool, game) pair, so that every game's reader parameters are faulted
+    for gm in ["th08", "th09", "th095", "th10", "alcostg", "th11", "th125", "th128", "th13", "th14", "th143", "th15", "th16", "th165", "th18", "th185"] {
+        v.push((format!("c-anm-{gm}"), Kind::Anm, g(gm), anm_src(g(gm), false), false));
+    }
+    for gm in ["th07", "th09", "th095", "th10", "alcostg", "th11", "th125", "th128", "th13", "th14", "th143", "th15", "th16", "th165", "th17", "th18", "th185"] {
+        v.push((format!("c-std-{gm}"), Kind::Std, g(gm), std_src(g(gm)), false));
+    }
+    for gm in ["th07", "th08"] { v.push((format!("c-msg-{gm}"), Kind::Msg, g(gm), msg_src(g("th06")).replace("    ins_13(true);\n", ""), false)); }
+    for gm in ["th10", "alcostg", "th11", "th128", "th13", "th14", "th143", "th15", "th16", "th165", "th17", "th18", "th185"] {
+        let mut src = msg_src(g(gm));
+        // TH10 / alcostg: the text instructions are 14..16; TH11 has no ins_27
+        if matches!(gm, "th10" | "alcostg") { src = src.replace("ins_17(", "ins_14(").replace("    ins_27(1.5);\n", ""); }
+        if gm == "th11" { src = src.replace("    ins_27(1.5);\n", ""); }
+        v.push((format!("c-msg-{gm}"), Kind::Msg, g(gm), src, false));
+    }
+    for gm in ["th12", "th18"] { v.push((format!("c-end-{gm}"), Kind::End, g(gm), END_SRC.to_string(), false)); }
+    v.push(("c-ecl-th09".into(), Kind::Ecl, g("th09"), ecl_src(g("th09")), false));
     v
 }
 
